@@ -13,6 +13,10 @@ THEOREMS = [
     "Cog.C02.C02_counterexample_ref_to_constant", "Cog.C02.C02_counterexample_unknown_type_hint",
     "Cog.C02.C02_counterexample_exponent_literal", "Cog.C02.C02_counterexample_field_collision",
     "Cog.C02.C02_errors_counterexample",
+    # Python class-declaration fragment
+    "Cog.C02.C02_py_declarations_wellformed_partial", "Cog.C02.C02_py_annotations_evaluate", "Cog.C02.C02_py_imports_cover",
+    "Cog.C02.C02_py_full_counterexample", "Cog.C02.C02_py_trim_collision", "Cog.C02.C02_py_counterexample_keyword",
+    "Cog.C02.C02_py_counterexample_empty_struct",
 ]
 FILES = HARNESS_BASE + ["lab_*.go", "src_*.go", "c02_*.go", "c05_virdec.go"]   # c05_virdec.go: VIR decoder for --replay of pydecl cases
 
@@ -243,8 +247,8 @@ def main():
                    ("c02-langs", dict(n=6, seed=seed, tier="quick")),
                    ("c02-ir", dict(n=16, seed=seed, tier="quick")),
                    ("c02-ir", dict(n=8, seed=seed, tier="quick", profile="raw")),
-                   ("c02-pydecl", dict(n=120, nsrc=40, seed=seed, tier="quick")),
-                   ("c02-pydecl", dict(n=60, nsrc=0, seed=seed, tier="quick", profile="raw"))]
+                   ("c02-pydecl", dict(n=400, nsrc=120, seed=seed, tier="quick")),
+                   ("c02-pydecl", dict(n=150, nsrc=0, seed=seed, tier="quick", profile="raw"))]
     else:
         streams = [("c02-known", {}),
                    ("c02-mini", dict(seed=seed, tier="thorough")),
